@@ -12,7 +12,7 @@ pub const TEMPLATES: [&str; 13] = [
     // an unknown placeholder before / after / between resolvable ones
     "<zz> then <a>", "<a> then <zz>", "<a><zz><a>",
 ];
-pub const VALUES: [&str; 8] = ["1", "<b>", "x>y", "$1", ".*", "<", "a b", "é"];
+pub const VALUES: [&str; 9] = ["1", "", "<b>", "x>y", "$1", ".*", "<", "a b", "é"];
 
 #[derive(Clone, Debug)]
 pub struct Table {
